@@ -236,7 +236,8 @@ impl<'a, 'b> Sem<'a, 'b> {
         ));
         bound.push((
             "ev2".into(),
-            v_obj(vec![("blur", v_fn("ev2.blur", v_undef()))]),
+            // collides with explicit `onClick` listeners on purpose (source order / last-wins)
+            v_obj(vec![("click", v_fn("ev2.click", v_undef()))]),
         ));
         for n in ["f1", "f2"] {
             let (v, k) = any_value(self.c, n);
@@ -702,7 +703,7 @@ impl<'a, 'b> Sem<'a, 'b> {
                                 if name == "on" {
                                     "{ focus: h1, keyUp: () => 1 }"
                                 } else {
-                                    "{ blur: h2 }"
+                                    "{ click: (e) => e }"
                                 },
                                 Cat::ObjLit,
                             ),
